@@ -8,15 +8,17 @@ Monitors: an independent listener-side parser of every listener's stdin, the acc
 (`Run.ledger`: every accepted event is in exactly one place -- buffered / held by one listener /
 answered OK / discarded -- and the pool's queue order: sent and discarded events are the oldest),
 serial uniqueness, poolserial order, per-pool FIFO order of first deliveries, reject isolation,
-listener isolation.
+listener isolation.  "Subscribed" is decided from the documented type hierarchy (docs/events.rst, "*Subtype Of*";
+sites/events.py `documented_hierarchy`), never from issubclass(): the classes are what is being checked.
 """
-from props.listener_world import World, hexs, parse_stdin
+from props.listener_world import World, hexs, parse_stdin, DocTypes, exec_op
 
 ID = 'C09'
 LEAN_PROPS = 'SupervisorModel.Props.C09'
 DRIVER = 'drv_c09'
 GENERATED = ['Listener', 'Events', 'Pool']
 TRUSTED = [
+    "docs/events.rst of the tree under verification is the reference for the event type hierarchy (its \"*Subtype Of*\" lines; parsed by harness/sites/events.py)",
     "event payloads are ASCII in this check (the len: header of non-ASCII payloads is C11 / finding F2)",
     "the listeners' own Subprocess.transition() (start/stop policy) is outside the Pool model; their process state is set by the harness",
     "overflow discards are observed as error-level entries of the pool's logger (pool name and the last integer in the entry)",
@@ -25,9 +27,13 @@ TRUSTED = [
 ASSUMPTIONS = ["pool names are pairwise distinct (section names of the configuration file) and every listener is its own Subprocess object",
                "a closed anonymous pipe never gets a reader again (EPIPE is sticky)"]
 RULE = ("cases = 1-3 pools with overlapping/disjoint subscriptions (concrete types, abstract supertypes, a type together "
-        "with its supertype), 1-3 listeners each, buffer sizes 1-5; op lists of notify / listener READY, OK, FAIL, garbage, "
-        "fragmented answers / pool transition / pipe capacity, EPIPE / process state / death and respawn, followed by a "
-        "drain phase; non-trivial = at least one event delivered; distinct = distinct canonical op lists")
+        "with its supertype, siblings; hand-picked sets and sets drawn from the whole documented type table), 1-3 listeners each "
+        "(names unique or shared across pools), buffer sizes 1-5; op lists of notify (every documented concrete type) / listener "
+        "READY, OK, FAIL, garbage, fragmented answers (cut between result header and body or anywhere, with a death, a pool pass or "
+        "a new event between the two reads) / pool transition / pipe capacity, EPIPE / process state / death (with or without "
+        "unread answer bytes in the pipe) and respawn, followed by a drain phase; exhaustive: the subscription matrix (a pool per "
+        "documented type x an event of every documented type) and every answer x every cut x {rest arrives, pool pass, death}; "
+        "non-trivial = at least one event delivered; distinct = distinct canonical op lists")
 
 TYPE_SETS = [['TICK_5'], ['TICK'], ['TICK', 'TICK_5'], ['EVENT'], ['PROCESS_STATE'], ['PROCESS_STATE', 'PROCESS_STATE_EXITED'],
              ['PROCESS_COMMUNICATION_STDOUT', 'TICK_60'], ['REMOTE_COMMUNICATION'], ['EVENT', 'TICK_5', 'TICK'],
@@ -38,9 +44,9 @@ READY = b'READY\n'
 
 
 def subscribed(types, clsname):
-    from supervisor import events
-    c = getattr(events.EventTypes, clsname)
-    return any(issubclass(c, getattr(events.EventTypes, t)) for t in types)
+    """is a pool whose events= line lists `types` subscribed to events of the type named `clsname`?  Decided from the
+    documented hierarchy (docs/events.rst, "*Subtype Of*"), not from the classes: the classes are what is checked."""
+    return DocTypes.get().subscribed(types, clsname)
 
 
 class Run:
@@ -74,46 +80,9 @@ class Run:
         before = [[w.lstate(pi, li) for li in range(len(ls))] for pi, ls in enumerate(w.listeners)]
         ev0 = w.next_ev
         before_pools = [self.pool_view(qi) for qi in range(len(w.pools))]
-        if t[0] == 'notify':
-            outs, err = w.notify(t[1], bytes.fromhex(t[2]).decode() if t[2] != '-' else '')
-        elif t[0] == 'transition':
-            outs, err = w.transition(int(t[1]))
-        elif t[0] == 'read':
-            outs, err = w.read(int(t[1]), int(t[2]), bytes.fromhex(t[3]) if t[3] != '-' else b'')
-        elif t[0] == 'wev':
-            outs, err = w.wev(int(t[1]), int(t[2]))
-        elif t[0] == 'pstate':
-            outs, err = w.pstate(int(t[1]), int(t[2]), t[3])
-        elif t[0] == 'cap':
-            outs, err = w.cap(int(t[1]), int(t[2]), None if t[3] == 'inf' else int(t[3]))
-        elif t[0] == 'breakpipe':
-            outs, err = w.breakpipe(int(t[1]), int(t[2]))
-        elif t[0] == 'die':
-            pi, li = int(t[1]), int(t[2])
-            p = w.proc(pi, li)
-            if not p.pid:
-                return
-            PS = w.states.ProcessStates
-            if p.state == PS.STARTING:
-                p.state = PS.RUNNING
-            cls = 'PROCESS_STATE_STOPPED' if p.killing else 'PROCESS_STATE_EXITED'
-            if p.killing:
-                pay = 'processname:%s groupname:%s from_state:STOPPING pid:%d' % (p.config.name, self.pools[pi][0], p.pid)
-            else:
-                pay = 'processname:%s groupname:%s from_state:RUNNING expected:1 pid:%d' % (p.config.name, self.pools[pi][0], p.pid)
-            op = 'die %d %d %s %s' % (pi, li, t[3], hexs(pay.encode()))
-            outs, err = w.die(pi, li, bytes.fromhex(t[3]) if t[3] != '-' else b'')
-        elif t[0] == 'spawn':
-            pi, li = int(t[1]), int(t[2])
-            p = w.proc(pi, li)
-            if p.pid:
-                return
-            pay = 'processname:%s groupname:%s from_state:%s tries:0' % (
-                p.config.name, self.pools[pi][0], w.states.getProcessStateDescription(p.state))
-            op = 'spawn %d %d %s %s' % (pi, li, t[3], hexs(pay.encode()))
-            outs, err = w.spawn(pi, li, int(t[3]))
-        else:
-            raise ValueError(op)
+        op, outs, err = exec_op(w, self.pools, op)
+        if op is None:
+            return
         # every event emitted during this operation: which pools must be offered it (by its class alone)
         for evid in range(ev0, w.next_ev):
             cname = w.events.getEventNameByType(type(w.evobjs[evid]))
@@ -129,8 +98,9 @@ class Run:
             for evid in range(ev0, w.next_ev):
                 if evid in self.accepted[qi] and evid not in self.place[qi]:
                     self.place[qi][evid] = 'buf'
-                    self.queue[qi].append(evid)      # a newly accepted event joins at the tail
-        self.ledger(op, outs)
+        # the observations of this operation in order, including where each new event was emitted ('ev:' markers):
+        # a newly accepted event joins its pools' queues at the tail at that moment
+        self.ledger(op, list(w.full_trace) if t[0] not in ('cap', 'breakpipe') else outs)
         for o in outs:
             f = o.split(':')
             self.ctx.count('out:' + f[0])
@@ -202,6 +172,12 @@ class Run:
 
         for o in outs:
             f = o.split(':')
+            if f[0] == 'ev':
+                settle()
+                for qi_ in range(len(self.pools)):
+                    if int(f[1]) in self.accepted[qi_] and int(f[1]) not in self.queue[qi_]:
+                        self.queue[qi_].append(int(f[1]))
+                continue
             if f[0] == 'discard':
                 qi = int(f[1])
                 if 0 <= qi < len(self.pools):
@@ -334,13 +310,45 @@ class Run:
                     hi = max(hi, pserial)
 
 
+def gen_types(rng):
+    """an events= line: one of the hand-picked sets, or 1-3 types drawn from the whole documented table (abstract and
+    concrete, siblings, a type together with one of its supertypes)"""
+    if rng.random() < 0.5:
+        return rng.choice(TYPE_SETS)
+    doc = DocTypes.get()
+    ts = [rng.choice(doc.names)]
+    for _ in range(rng.choice([0, 0, 1, 2])):
+        r = rng.random()
+        if r < 0.3 and len(doc.chain[ts[0]]) > 1:
+            ts.append(rng.choice(doc.chain[ts[0]][1:]))          # one of its supertypes
+        elif r < 0.6:
+            ts.append(rng.choice([n for n in doc.names if doc.chain[n][1:2] == doc.chain[ts[0]][1:2]]))   # a sibling
+        else:
+            ts.append(rng.choice(doc.names))
+    return list(dict.fromkeys(ts))
+
+
+def gen_emit(rng):
+    """the type of an emitted event: the hand-picked mix, or any documented concrete type"""
+    return rng.choice(EMIT) if rng.random() < 0.6 else rng.choice(DocTypes.get().concrete)
+
+
 def gen_case(rng):
     npools = rng.choice([1, 2, 2, 3])
     pools = []
     for i in range(npools):
-        pools.append(('p%d' % i, rng.randrange(1, 6), rng.randrange(1, 4), rng.choice(TYPE_SETS)))
+        pools.append(('p%d' % i, rng.randrange(1, 6), rng.randrange(1, 4), gen_types(rng)))
     handler = rng.choice(['strict', 'default'])
     return handler, pools, rng.choice(['unique', 'shared', 'shared'])
+
+
+ANSWERS = [b'RESULT 2\nOK', b'RESULT 4\nFAIL', b'RESULT 1\nx', b'RESULT 0\n', b'RESULT 2\nOKREADY\n', b'RESULT 4\nFAILREADY\n']
+
+
+def header_cut(data):
+    """the position right after the first newline (between a result header and its body), or None"""
+    k = data.find(b'\n')
+    return k + 1 if 0 <= k < len(data) - 1 else None
 
 
 def gen_script(rng, pools, n, world_state=None):
@@ -358,13 +366,19 @@ def gen_script(rng, pools, n, world_state=None):
         li = rng.randrange(pools[pi][2])
         if r < 0.25:
             k += 1
-            ops.append('notify %s %s' % (rng.choice(EMIT), ('n%d' % k).encode().hex()))
+            ops.append('notify %s %s' % (gen_emit(rng), ('n%d' % k).encode().hex()))
         elif r < 0.55:
             data = rng.choice([READY, READY, READY, b'RESULT 2\nOK', b'RESULT 2\nOK', b'RESULT 2\nOKREADY\n', b'RESULT 4\nFAIL', b'RESULT 4\nFAILREADY\n',
                                b'RESULT 1\nx', b'garbage\n', b'RESULT -1\n', b'RESULT 0\n', b'READY\nREADY\n', b'RESULT 2\n', b'OK'])
             if rng.random() < 0.25 and len(data) > 1:
                 c = rng.randrange(1, len(data))
+                if header_cut(data) and rng.random() < 0.5:
+                    c = header_cut(data)       # the header of a result in one read, its body in the next
                 ops.append('read %d %d %s' % (pi, li, data[:c].hex()))
+                if rng.random() < 0.3:
+                    # ... and something happens in between: the listener is reaped, the pool makes a pass, an event arrives
+                    ops.append(rng.choice(['die %d %d - x' % (pi, li), 'transition %d' % pi,
+                                           'notify %s %s' % (gen_emit(rng), b'mid'.hex())]))
                 ops.append('read %d %d %s' % (pi, li, data[c:].hex()))
             else:
                 ops.append('read %d %d %s' % (pi, li, data.hex()))
@@ -426,6 +440,106 @@ def gen_reject_case(rng):
     return rng.choice(['strict', 'default']), pools, ops
 
 
+def gen_split_case(rng):
+    """every listener READY, events arrive, a listener is handed one and answers in two reads -- cut between the result
+    header and its body (or anywhere else) -- and between the two reads the listener may be reaped, the pool may make a
+    pass, more events may arrive; the body may be OK, FAIL, something else, or never come.  1-3 pools (the same event
+    types in several of them, listener names shared or not)."""
+    npools = rng.choice([1, 2, 2, 3])
+    sets = rng.choice([[['TICK_5'], ['TICK'], ['EVENT']], [['TICK'], ['TICK_5', 'TICK_60'], ['TICK_60']],
+                       [['EVENT'], ['PROCESS_STATE'], ['TICK']]])
+    pools = [('p%d' % i, rng.randrange(1, 5), rng.randrange(1, 3), sets[i]) for i in range(npools)]
+    ops, pid = [], 400
+    for pi, (name, bs, nl, types) in enumerate(pools):
+        for li in range(nl):
+            pid += 1
+            ops += ['spawn %d %d %d' % (pi, li, pid), 'pstate %d %d running' % (pi, li), 'read %d %d %s' % (pi, li, READY.hex())]
+    k = 0
+    for _ in range(rng.randrange(2, 7)):
+        for _ in range(rng.choice([1, 1, 2])):
+            k += 1
+            ops.append('notify %s %s' % (rng.choice(['TICK_5', 'TICK_5', 'TICK_60']), ('s%d' % k).encode().hex()))
+        for pi in range(npools):
+            ops.append('transition %d' % pi)
+        pi = rng.randrange(npools)
+        li = rng.randrange(pools[pi][2])
+        data = rng.choice(ANSWERS)
+        c = header_cut(data) if rng.random() < 0.7 else rng.randrange(1, len(data))
+        ops.append('read %d %d %s' % (pi, li, data[:c].hex()))
+        r = rng.random()
+        if r < 0.35:
+            pid += 1
+            if rng.random() < 0.3:
+                ops.append('pstate %d %d stopping' % (pi, li))
+            # reaped with the rest of the answer unread, or still in the pipe
+            ops += ['die %d %d %s x' % (pi, li, rng.choice(['-', '-', data[c:].hex()])), 'spawn %d %d %d' % (pi, li, pid),
+                    'pstate %d %d running' % (pi, li), 'read %d %d %s' % (pi, li, READY.hex())]
+            continue
+        if r < 0.6:
+            ops.append(rng.choice(['transition %d' % pi, 'notify TICK_5 ' + b'mid'.hex(), 'wev %d %d' % (pi, li)]))
+        ops.append('read %d %d %s' % (pi, li, data[c:].hex()))
+        if not data.endswith(READY) and rng.random() < 0.7:
+            ops.append('read %d %d %s' % (pi, li, READY.hex()))
+        ops.append('transition %d' % pi)
+    return rng.choice(['strict', 'default']), pools, ops, rng.choice(['unique', 'shared'])
+
+
+def split_corpus():
+    """every answer x every cut position x what happens before the rest arrives: one pool, one listener holding the only
+    event, a second event behind it (small-scope exhaustive)"""
+    tick = 'notify TICK_5 ' + b'when:5'.hex()
+    up = ['spawn 0 0 11', 'pstate 0 0 running', 'read 0 0 ' + READY.hex(), tick, tick, 'transition 0']
+    for data in ANSWERS[:4]:
+        for c in range(1, len(data)):
+            for mid in (None, 'die', 'transition 0'):
+                ops = list(up) + ['read 0 0 ' + data[:c].hex()]
+                if mid == 'die':
+                    ops += ['die 0 0 - x', 'spawn 0 0 12', 'pstate 0 0 running']
+                else:
+                    if mid:
+                        ops.append(mid)
+                    ops.append('read 0 0 ' + data[c:].hex())
+                ops += ['read 0 0 ' + READY.hex(), 'transition 0']
+                yield 'strict', [('a', 3, 1, ['TICK'])], ops
+
+
+def matrix_cases(ctx, cases, impls):
+    """subscription matrix, exhaustive: for every documented type T a pool subscribed to T alone (one READY listener),
+    and one event of every documented type: exactly the pools whose T is the event's type or one of its documented
+    supertypes hand it to their listener"""
+    doc = DocTypes.get()
+    chunk = 9
+    for c0 in range(0, len(doc.names), chunk):
+        subs = doc.names[c0:c0 + chunk]
+        pools = [('m%d' % i, 3, 1, [t]) for i, t in enumerate(subs)]
+        r = Run(ctx, 'strict', pools, [])
+        for pi in range(len(pools)):
+            for op in ('spawn %d 0 %d' % (pi, 600 + pi), 'pstate %d 0 running' % pi, 'read %d 0 %s' % (pi, READY.hex())):
+                r.do(op)
+        for pi in range(len(pools)):       # the listeners' own PROCESS_STATE_STARTING events
+            for _ in range(len(pools) + 1):
+                r.do('transition %d' % pi)
+                if r.w.lstate(pi, 0)[0] != 'BUSY':
+                    break
+                r.do('read %d 0 %s' % (pi, b'RESULT 2\nOKREADY\n'.hex()))
+        for k, name in enumerate(doc.names):
+            r.do('notify %s %s' % (name, ('m%d' % k).encode().hex()))
+            for pi in range(len(pools)):
+                r.do('transition %d' % pi)
+            got = {pi for pi in range(len(pools)) if r.w.lstate(pi, 0)[0] == 'BUSY'}
+            want = {pi for pi, t in enumerate(subs) if doc.is_a(name, t)}
+            for pi in sorted(got - want):
+                r.viol.append(('event-offered-to-unsubscribed-pool', 'an event of type %s was handed to the listener of a pool subscribed to %s only (documented supertypes of %s: %r)' % (
+                    name, subs[pi], name, doc.chain[name][1:])))
+            for pi in sorted(want - got):
+                r.viol.append(('event-not-offered-to-subscribed-pool', 'an event of type %s was not handed to the READY listener of a pool subscribed to %s (documented supertypes of %s: %r)' % (
+                    name, subs[pi], name, doc.chain[name][1:])))
+            ctx.count('matrix-pairs', len(pools))
+            for pi in sorted(got):
+                r.do('read %d 0 %s' % (pi, b'RESULT 2\nOKREADY\n'.hex()))
+        finish_case(ctx, r, 'strict', pools, 'unique', cases, impls, drain=True)
+
+
 def corpus():
     up2 = ['spawn 0 0 11', 'pstate 0 0 running', 'spawn 1 0 12', 'pstate 1 0 running']
     tick = 'notify TICK_5 ' + b'when:5'.hex()
@@ -452,6 +566,19 @@ def corpus():
         ('default', [('a', 2, 2, ['TICK_5']), ('b', 2, 1, ['TICK'])], up2 + [tick, 'read 0 0 ' + READY.hex(), 'read 1 0 ' + READY.hex(),
                                                                          'transition 0', 'transition 1', 'pstate 1 0 stopping',
                                                                          'die 1 0 - x', 'pstate 0 0 stopping', 'die 0 0 ' + b'RESULT 4\nFAIL'.hex() + ' x']),
+        # seed C09-5: a communication event must not reach a pool subscribed to the abstract PROCESS_LOG type (and v.v.)
+        ('strict', [('logpool', 3, 1, ['PROCESS_LOG']), ('commpool', 3, 1, ['PROCESS_COMMUNICATION']), ('all', 3, 1, ['EVENT'])],
+         ['spawn 0 0 11', 'pstate 0 0 running', 'spawn 1 0 12', 'pstate 1 0 running', 'spawn 2 0 13', 'pstate 2 0 running',
+          'notify PROCESS_LOG_STDOUT ' + b'processname:p groupname:g pid:7 channel:stdout\nx'.hex(),
+          'notify PROCESS_COMMUNICATION_STDOUT ' + b'processname:p groupname:g pid:7\ny'.hex(),
+          'read 0 0 ' + READY.hex(), 'transition 0', 'read 0 0 ' + b'RESULT 2\nOKREADY\n'.hex(), 'transition 0']),
+        # seed C09-6: the header of a result in one read; then the listener is reaped / the body FAIL arrives
+        ('strict', [('a', 3, 1, ['TICK']), ('b', 3, 1, ['TICK'])], up2 + [tick, 'read 0 0 ' + READY.hex(), 'read 1 0 ' + READY.hex(),
+                                                                      'transition 0', 'transition 1', 'read 1 0 ' + b'RESULT 2\nOK'.hex(),
+                                                                      'read 0 0 ' + b'RESULT 4\n'.hex(), tick, 'die 0 0 - x']),
+        ('strict', [('a', 3, 1, ['TICK']), ('b', 3, 1, ['TICK'])], up2 + [tick, 'read 0 0 ' + READY.hex(), 'read 1 0 ' + READY.hex(),
+                                                                      'transition 0', 'transition 1', 'read 1 0 ' + b'RESULT 2\nOK'.hex(),
+                                                                      'read 0 0 ' + b'RESULT 4\n'.hex(), tick, 'read 0 0 ' + b'FAIL'.hex()]),
         # death while BUSY
         ('strict', [('a', 3, 2, ['EVENT'])], ['spawn 0 0 11', 'pstate 0 0 running', 'spawn 0 1 12', 'pstate 0 1 running', tick,
                                             'read 0 0 ' + READY.hex(), 'transition 0', 'die 0 0 - x', 'read 0 1 ' + READY.hex(), 'transition 0']),
@@ -460,6 +587,10 @@ def corpus():
 
 def run_case(ctx, handler, pools, script, cases, impls, drain=True, names='unique'):
     r = Run(ctx, handler, pools, script, names=names)
+    return finish_case(ctx, r, handler, pools, names, cases, impls, drain)
+
+
+def finish_case(ctx, r, handler, pools, names, cases, impls, drain=True):
     if drain:
         r.drain()
     viol = r.monitors() if drain else r.viol
@@ -473,6 +604,9 @@ def run_case(ctx, handler, pools, script, cases, impls, drain=True, names='uniqu
     ctx.count('events-delivered-ok', delivered)
     ctx.count('events-discarded', sum(sum(d.values()) for d in r.discarded))
     ctx.count('pools:%d' % len(pools))
+    for _, _, _, types in pools:
+        for t in types:
+            ctx.count('subscribed:' + t)
     seen = set()
     for kind, what in r.viol:
         if kind in seen:
@@ -488,12 +622,18 @@ def run(ctx):
     for handler, pools, script in corpus():
         for names in ('unique', 'shared'):
             run_case(ctx, handler, pools, script, cases, impls, names=names)
-    for _ in range(ctx.n(150, 2500)):
+    matrix_cases(ctx, cases, impls)
+    for handler, pools, script in split_corpus():
+        run_case(ctx, handler, pools, script, cases, impls)
+    for _ in range(ctx.n(150, 1200)):
+        handler, pools, script, names = gen_split_case(rng)
+        run_case(ctx, handler, pools, script, cases, impls, names=names)
+    for _ in range(ctx.n(300, 3000)):
         handler, pools, names = gen_case(rng)
         script = gen_script(rng, pools, rng.randrange(5, 60))
         run_case(ctx, handler, pools, script, cases, impls, names=names)
     # rejections in one pool while other pools have listeners of the same names and priorities
-    for _ in range(ctx.n(60, 800)):
+    for _ in range(ctx.n(120, 1000)):
         handler, pools, script = gen_reject_case(rng)
         run_case(ctx, handler, pools, script, cases, impls, names='shared')
     ctx.sample({'case': cases[1][0], 'ops': cases[1][1][:12], 'impl': impls[1][:12]})
@@ -513,7 +653,10 @@ def replay(ctx, data):
 TECHNIQUE = ("Lean 4 theorems (invariants by induction over operation lists, finite-table decision over the generated event "
              "class tree) over a model whose guards/constants/class table are regenerated from process.py and events.py; "
              "differential correspondence against the real pools, notify and dispatchers")
-LEVEL_TEXT = ("subscription semantics is decided over the whole generated EventTypes table; buffer bound, overflow rule and head "
+LEVEL_TEXT = ("subscription semantics is decided over the whole generated EventTypes table and tied, type by type, to the hierarchy "
+              "documented in docs/events.rst (registered types = documented types, ancestor chains = documented supertype chains, "
+              "offered_to_documented_subscribers); the owner test of handle_rejected is regenerated from the source and interpreted "
+              "by the model (reject isolation for pools with listeners of the same names); buffer bound, overflow rule and head "
               "re-insertion are proved for every state; serial/poolserial numbering (with the wrap new_serial performs), "
               "conservation (every accepted event is in exactly one of: buffer, one listener, answered OK, discarded), "
               "gone-stays-gone and acceptance-at-emission are proved for every history by an inductive invariant; the model "
